@@ -10,13 +10,14 @@ from concurrent.futures import ThreadPoolExecutor
 from vlib import core, walker_engine
 from vlib.build_engine import digest_path
 
-SHAPES = {"fan": {"a": [], "b": [], "c": ["a", "b"]}, "chain": {"a": [], "b": ["a"], "c": ["b"]}}
+SHAPES = {"fan": {"a": [], "b": [], "c": ["a", "b"]}, "chain": {"a": [], "b": ["a"], "c": ["b"]}, "wide": {"a": [], "b": [], "c": []}}
+WORKERS = {"fan": 2, "chain": 2, "wide": 1}     # wide: more ready targets than workers, jobs wait in the pool's queue
 
 
 def make_ws(base, shape):
     ws = os.path.join(base, "ws")
     os.makedirs(os.path.join(ws, "pkg"))
-    open(os.path.join(ws, "grog.toml"), "w").write("num_workers = 2\n")
+    open(os.path.join(ws, "grog.toml"), "w").write(f"num_workers = {WORKERS[shape]}\n")
     targets = []
     for t, deps in SHAPES[shape].items():
         cmd = (f'echo "S {t} $$" >> "$GROG_WORKSPACE_ROOT/../trace"\n'
@@ -61,20 +62,23 @@ def one(grog, tmp, case, clean):
         if point == "loading":
             time.sleep(delay_ms / 1000.0)
         elif point == "command-running":
-            if not wait_for(trace, "S a"):
-                raise core.Infra("target a never started")
+            if not wait_for(trace, "S "):
+                raise core.Infra("no target ever started")
             time.sleep(delay_ms / 1000.0)
         elif point in ("storing-result", "storing-outputs", "after-first-target"):
-            if not wait_for(trace, "S a"):
-                raise core.Infra("target a never started")
-            os.remove(os.path.join(base, "slow_a"))
-            if not wait_for(trace, "E a"):
-                raise core.Infra("target a never finished")
+            if not wait_for(trace, "S "):
+                raise core.Infra("no target ever started")
+            first = open(trace).read().split()[1]
+            os.remove(os.path.join(base, "slow_" + first))
+            if not wait_for(trace, "E " + first):
+                raise core.Infra(f"target {first} never finished")
             time.sleep((100 + delay_ms) / 1000.0 if point != "after-first-target" else 0.7 + delay_ms / 1000.0)
         elif point == "random":
             os.remove(os.path.join(base, "slow_a"))
             if delay_ms % 2:
                 os.remove(os.path.join(base, "slow_b"))
+            if shape == "wide" and delay_ms % 3 == 0:
+                os.remove(os.path.join(base, "slow_c"))
             time.sleep(delay_ms / 1000.0)
         t_sig = time.time()
         proc.send_signal(sig)
@@ -180,7 +184,7 @@ def one(grog, tmp, case, clean):
 
 def run(chk, tmp, replay=None):
     quick = chk.tier == "quick"
-    for name, deps in (("fan", "FanDeps"), ("chain", "ChainDeps")):
+    for name, deps in (("fan", "FanDeps"), ("chain", "ChainDeps"), ("wide", "WideDeps")):
         cfg = f"SPECIFICATION Spec\nCONSTANTS\n  Targets <- T3\n  Deps <- {deps}\nINVARIANTS NoResultForInterrupted InterruptedExitsNonZero LockReleasedAtExit\nPROPERTIES NoStartAfterSignal\n"
         res = core.tlc(os.path.join(tmp, "ex_" + name), "InterruptMC.tla", "i.cfg", timeout=600, files={"i.cfg": cfg})
         core.tlc_must_pass(res, "Interrupt " + name)
@@ -216,7 +220,7 @@ def run(chk, tmp, replay=None):
     chk.cov["bounds"] = {"graphs": list(SHAPES), "signals": ["SIGINT", "SIGTERM"], "points": ["loading", "command-running", "storing-outputs", "storing-result", "after-first-target", "random"]}
     with ThreadPoolExecutor(core.NCPU) as ex:
         results = list(ex.map(lambda c: one(grog, tmp, c, clean), cases))
-    for shape, deps in (("fan", "FanDeps"), ("chain", "ChainDeps")):
+    for shape, deps in (("fan", "FanDeps"), ("chain", "ChainDeps"), ("wide", "WideDeps")):
         group = [(r[0], r[3]) for r in results if r[0][1] == shape and r[3]]
         if not group:
             continue
